@@ -20,6 +20,8 @@
 (*   Rc4Gen(N, st, n)   n steps: [st |-> state after, ks |-> <<n values>>]  *)
 (*   Rc4Xor(N, st, m)   [st |-> state after Len(m) steps,                   *)
 (*                       out |-> m[t] xor ks[t]]  (encryption = decryption) *)
+(* TLC!TLCEval(v) = v; it only makes TLC evaluate an accumulator eagerly    *)
+(* instead of piling up one lazy thunk per iteration (stack depth).         *)
 (***************************************************************************)
 EXTENDS Words, TLC
 
